@@ -11,6 +11,7 @@ ap.add_argument("--budget", default="25"); ap.add_argument("--par", type=int, de
 ap.add_argument("--update", action="store_true"); ap.add_argument("ids", nargs="*")
 a = ap.parse_args()
 ids = a.ids or sorted(d for d in os.listdir("/verif/seeded") if os.path.exists("/verif/seeded/" + d + "/meta.json"))
+ids = [i for i in ids if not json.load(open("/verif/seeded/" + i + "/meta.json")).get("obsolete")]  # changes a later fix made behaviour-preserving
 def one(i):
     d = "/verif/seeded/" + i
     meta = json.load(open(d + "/meta.json"))
